@@ -67,7 +67,7 @@ def run_case(case, stats):
             root(s)
             return s.tell()
 
-        r = gen.accepted_input(drng, p)
+        r = gen.accepted_input(drng, p, stats=stats)
         if r is None:
             raise Discard("no_accepted_input")
         data, used = r
